@@ -205,6 +205,14 @@ V = [
     ("C06", B, "shallow copy of options", IND,
      "        self.preprocessing_options = copy.deepcopy(options)",
      "        self.preprocessing_options = copy.copy(options)", "C06-R4"),
+    ("C05", B, "range request dropped under the plateau search", FIT,
+     "                        super(FitProperties, self).__setitem__(\n"
+     "                            key, copy.deepcopy(value))\n"
+     "                        return\n",
+     "                        return\n", "C05-R5"),
+    ("C12", B, "hash keys on the second range entry", FIT,
+     '                hashlist.append(max(self.fp["range_x"]))',
+     '                hashlist.append(self.fp["range_x"][1])', "C12-R6"),
     ("C06", B, "options-only request not applied", IND,
      '        if "preprocessing" in kwargs or "preprocessing_options" in kwargs:',
      '        if "preprocessing" in kwargs:', "C06-R10"),
